@@ -6,6 +6,7 @@ import (
 	"fmt"
 	"os"
 	"path/filepath"
+	"regexp"
 	"sort"
 	"strings"
 	"time"
@@ -140,9 +141,9 @@ type Profile struct {
 	Obs        func(cfg core.Cfg) []core.Call
 	Depth      int
 	DepthFor   func(cfg core.Cfg) int // optional per-configuration depth
-	ObsBefore  bool // also observe before the last op
-	ReopenLeaf bool // close, reopen and observe again at every leaf
-	NoKappa    bool // do not deduplicate states
+	ObsBefore  bool                   // also observe before the last op
+	ReopenLeaf bool                   // close, reopen and observe again at every leaf
+	NoKappa    bool                   // do not deduplicate states
 	Judge      func(c *Ctx)
 	// Run, when set, replaces the standard leaf execution.
 	Run func(p *Profile, cfg core.Cfg, ops []core.Op, leaf *Leaf)
@@ -317,7 +318,10 @@ func callNames(op core.Op) string {
 }
 
 // ErrClass abstracts an error message to a stable class.
+var pathRe = regexp.MustCompile(`/[^ :]*`)
+
 func ErrClass(msg string) string {
+	msg = pathRe.ReplaceAllString(msg, "<path>") // scratch directory names differ per history
 	for _, k := range []string{"crc error", "EOF", "offset out of mapped region", "SRem", "listIdx", "panicked", "not support", "no such file", "err EntryIdxMode"} {
 		if strings.Contains(msg, k) {
 			return strings.Replace(k, " ", "-", -1)
